@@ -9,5 +9,8 @@ import XPathV.Theorems.C01
 #print axioms XPathV.Theorems.C01.following_walk
 #print axioms XPathV.Theorems.C01.preceding_walk
 #print axioms XPathV.Theorems.C01.C01_main
+#print axioms XPathV.Theorems.C01.C01_main_unconditional
 #print axioms XPathV.Theorems.C01.C01_single_step
 #print axioms XPathV.Theorems.C01.C01_from_text
+#print axioms XPathV.Theorems.C01.C01_from_text_unconditional
+#print axioms XPathV.Theorems.C01.identity_is_the_key_string
